@@ -1344,4 +1344,14 @@ example : domCertOk (⟨[3, 2], [0, 0, 3, -1, -1, 3]⟩ : Arr ℚ) 0 [1/2, 1/2] 
 
 end cert
 
+/-! ## Tolerance arguments: only an omitted tolerance takes the default -/
+
+/-- an explicit tolerance — `0` included — is used as given (`if tol is None: tol = self.tol`) -/
+theorem resolveTol_explicit (t : Rat) : resolveTol (some t) = t := rfl
+
+/-- an omitted tolerance is `Player.tol`, the double `1e-8`, which is positive -/
+theorem resolveTol_default : resolveTol none = playerTol ∧ 0 < playerTol := ⟨rfl, by decide +kernel⟩
+
+example : resolveTol (some 0) = 0 ∧ resolveTol (some 0) ≠ resolveTol none := by decide +kernel
+
 end QE.C14
